@@ -42,6 +42,7 @@ type ChanCfg struct {
 	Scale  Scale
 	LenOff []int // header offsets whose alteration breaks the framing ("fliplen")
 	Exact  bool  // model frames and real frames correspond one to one (Noise); otherwise L1 only (TLS)
+	Share  int   // replay one walk in Share (seeded choice), 0/1 = all
 	New    func(walk int) (*ChanSession, error)
 }
 
@@ -121,6 +122,8 @@ type chanRun struct {
 	rem    int         // real queued remainder the harness expects
 	buf    []byte
 	faulty bool
+	// real length (plaintext + tag) of the frame the reader took most recently
+	lastFrame int
 }
 
 func (r *chanRun) mismatch(step int, class, what string, exp, got any) {
@@ -152,6 +155,15 @@ func (r *chanRun) ptOf(frameLen int) int {
 func (r *chanRun) run() {
 	cfg, sc := r.cfg, r.cfg.Scale
 	w := r.walk
+	defer func() {
+		// a panic inside Read/Write of the code under test is an observable failure of the channel
+		if p := recover(); p != nil {
+			if r.sess == nil {
+				r.sess = &ChanSession{}
+			}
+			r.mismatch(len(r.log), cfg.Layer+"-panic", fmt.Sprintf("panic in the channel code: %v", p), "no panic", fmt.Sprint(p))
+		}
+	}()
 	for _, st := range w.Steps {
 		if st.Op.Name() == "fault" {
 			r.faulty = true
@@ -235,8 +247,8 @@ func (r *chanRun) run() {
 			r.res.AddMismatch(vfh.Mismatch{Class: "MACHINERY", What: "unknown op " + op.Name(), Walk: w.Walk, Step: si})
 			return
 		}
-		if sess.After != nil {
-			sess.After(sc.MaxPT + sc.Tag + sc.Prefix)
+		if sess.After != nil && op.Name() == "read" {
+			sess.After(r.lastFrame)
 		}
 		if cfg.Exact && sess.Proj != nil && !stop {
 			r.project(si, op, next, cross)
@@ -247,6 +259,9 @@ func (r *chanRun) run() {
 		r.drain(len(w.Steps))
 	}
 	r.res.Count(1, steps)
+	if r.faulty && len(r.log) >= 6 && w.Walk%97 == 0 {
+		r.res.Sample(map[string]any{"layer": cfg.Layer, "walk": w.Walk, "file": filepath.Base(r.file), "executed": append([]any(nil), r.log...)})
+	}
 }
 
 // project compares the in-package state with the model (L2).
@@ -291,6 +306,7 @@ func (r *chanRun) read(si int, op vfh.Op, prev, next chanState) bool {
 				return false
 			}
 			q = pt
+			r.lastFrame = pt + sc.Tag
 		}
 	} else {
 		// L1-only layer: relate the buffer to whatever the real reader has next
@@ -541,6 +557,9 @@ func RunChannel(res *vfh.Result, cfg ChanCfg, glob string, rounds, par int) erro
 		}
 		for rd := 0; rd < rounds; rd++ {
 			for _, w := range walks {
+				if cfg.Share > 1 && (uint64(w.Walk)+uint64(vfh.Seed())+uint64(rd))%uint64(cfg.Share) != 0 {
+					continue
+				}
 				jobs = append(jobs, job{f, int(mpt), w, rd})
 			}
 		}
